@@ -175,7 +175,8 @@ Definition verdict (c : case) : Z :=
       let '(o, (f15, f17)) := oracle real D clear (ref_of_db D) [] (db_f15 D) [] steps in
       let o := if o =? 0 then first_nonzero (map (rb_code f15 f17) rbs) else o in
       let o := if o =? 0 then (if forallb (fun p => zlist_eqb (fst p) (snd p)) execs then 0 else 2) else o in
-      if o =? 0 then (if m then 0 else 1) else o
+      (* known classes (o >= 10) only while the implementation behaves as the model records *)
+      if o =? 0 then (if m then 0 else 1) else if (10 <=? o) && negb m then 2 else o
   end.
 
 Definition failures (l : list case) := Common.failures verdict l.
